@@ -163,7 +163,7 @@ def work(item):
 def run(ctx):
     import concurrent.futures as cf
     quick = ctx.quick
-    budget = 1200 if quick else 30000
+    budget = 2500 if quick else 30000
     with cf.ThreadPoolExecutor(2) as ex:
         fa = ex.submit(ctx.build, "plainstatic", "A", ["src/libprdata.a"])
         fb = ex.submit(ctx.build, "plainstatic", "B", ["src/libprdata.a"])
